@@ -93,6 +93,9 @@ pub const POISON_KINDS: &[&str] = &[
     "auth_ns_shallower",
     "auth_ns_same_depth",
     "auth_ns_foreign_owner",
+    "ns_legit_target_foreign_owner",
+    "neg_soa_foreign_owner",
+    "ans_type_at_alias_owner",
     "auth_soa_extra",
     "add_glue_unnamed",
     "add_unrelated",
@@ -666,6 +669,51 @@ impl UniverseNet {
                 let g = self.tagged_a(&evil_ns, 300);
                 resp.additional.push(g);
             }
+            "ns_legit_target_foreign_owner" => {
+                // a referral's own name server named once more, by an NS record whose
+                // owner the server has no say over: another zone's name, a sibling,
+                // or the delegation already in use or one above it
+                let legit: Vec<String> = resp
+                    .authority
+                    .iter()
+                    .chain(resp.answers.iter())
+                    .filter_map(|r| match &r.rtype_with_data {
+                        RecordTypeWithData::NS { nsdname } => Some(nsdname.to_dotted_string()),
+                        _ => None,
+                    })
+                    .collect();
+                if let Some(target) = legit.first() {
+                    let h = world::with(|w| w.derived("upstream.poison_owner_class", &qname));
+                    let owner = match h % 4 {
+                        0 => victim.clone(),
+                        1 => child_name("sibling", &parent(&qname).unwrap_or_else(|| ".".into())),
+                        k => {
+                            let want = if k == 2 {
+                                current_depth.max(1)
+                            } else {
+                                current_depth.saturating_sub(1).max(1)
+                            };
+                            let mut o = qname.clone();
+                            while labels(&o) > want {
+                                o = parent(&o).unwrap_or_else(|| ".".into());
+                            }
+                            o
+                        }
+                    };
+                    let ns = rr(&owner, &format!("NS {target}"), 300);
+                    // only an owner the reply has no business naming
+                    let own_owner = resp.authority.iter().chain(resp.answers.iter()).any(|r| {
+                        matches!(r.rtype_with_data, RecordTypeWithData::NS { .. }) && r.name == ns.name
+                    });
+                    if !own_owner {
+                        if (h / 4) % 2 == 0 {
+                            resp.authority.push(ns);
+                        } else {
+                            resp.answers.push(ns);
+                        }
+                    }
+                }
+            }
             "auth_ns_shallower" | "auth_ns_same_depth" => {
                 let mut owner = qname.clone();
                 let want = if kind == "auth_ns_same_depth" {
@@ -679,6 +727,53 @@ impl UniverseNet {
                 resp.authority.push(rr(&owner, &format!("NS {evil_ns}"), 300));
                 let g = self.tagged_a(&evil_ns, 300);
                 resp.additional.push(g);
+            }
+            "neg_soa_foreign_owner" => {
+                // a negative reply whose single SOA belongs to somebody else
+                let soas = resp
+                    .authority
+                    .iter()
+                    .filter(|r| matches!(r.rtype_with_data, RecordTypeWithData::SOA { .. }))
+                    .count();
+                if resp.answers.is_empty() && soas == 1 {
+                    let h = world::with(|w| w.derived("upstream.poison_owner_class", &qname));
+                    let owner = if h % 2 == 0 {
+                        victim.clone()
+                    } else {
+                        child_name("sibling", &parent(&qname).unwrap_or_else(|| ".".into()))
+                    };
+                    let t = self.next_tag();
+                    resp.authority
+                        .retain(|r| !matches!(r.rtype_with_data, RecordTypeWithData::SOA { .. }));
+                    resp.authority.push(rr(
+                        &owner,
+                        &format!("SOA evil.invalid. evil.invalid. {t} 1 1 1 1"),
+                        300,
+                    ));
+                }
+            }
+            "ans_type_at_alias_owner" => {
+                // a record of the asked type at the owner of an alias of the reply:
+                // only the end of the alias path may supply records of the asked type
+                let alias_owner = resp.answers.iter().find_map(|r| match &r.rtype_with_data {
+                    RecordTypeWithData::CNAME { .. } => Some(r.name.to_dotted_string()),
+                    _ => None,
+                });
+                if let (Some(owner), Some(QueryType::Record(rt))) = (alias_owner, qtype) {
+                    if rt != RecordType::CNAME {
+                        let forged = if rt == RecordType::TXT {
+                            self.tagged_txt(&owner, 300)
+                        } else {
+                            self.tagged_a(&owner, 300)
+                        };
+                        let h = world::with(|w| w.derived("upstream.poison_position", &qname));
+                        if h % 2 == 0 {
+                            resp.answers.insert(0, forged);
+                        } else {
+                            resp.answers.push(forged);
+                        }
+                    }
+                }
             }
             "auth_soa_extra" => {
                 let t = self.next_tag();
